@@ -14,6 +14,7 @@ Record rcase := mkRCase {
   rc_dict : bool;                      (* headers given as a plain dict (HTTPHeaders(dict) = update = __setitem__) *)
   rc_auth_user : option text; rc_auth_pass : option text;
   rc_maxred : option Z; rc_follow : option bool; rc_ua : option text;
+  rc_defmax : option Z;                (* AsyncHTTPClient(defaults=dict(max_redirects=N)) *)
   rc_script : list hop                 (* the server's answers, with urljoin's result for each *)
 }.
 
@@ -95,13 +96,13 @@ Definition initial_req (rc : rcase) : option req :=
   if rc_dict rc then
     (* fetch(): HTTPHeaders(request.headers) with a dict: MutableMapping.update, no validation *)
     Some (mkReq (rc_url rc) (rc_method rc) (rc_body rc) (update_all (rc_headers rc) empty_h)
-                (rc_auth_user rc) (rc_auth_pass rc) (rc_maxred rc) (rc_follow rc) (rc_ua rc))
+                (rc_auth_user rc) (rc_auth_pass rc) (rc_maxred rc) (rc_follow rc) (rc_ua rc) (rc_defmax rc))
   else
   match add_all (rc_headers rc) empty_h with
   | (RUnit, h0) =>
       match copy h0 with                          (* fetch(): HTTPHeaders(request.headers) *)
       | (RUnit, h) => Some (mkReq (rc_url rc) (rc_method rc) (rc_body rc) h (rc_auth_user rc)
-                                  (rc_auth_pass rc) (rc_maxred rc) (rc_follow rc) (rc_ua rc))
+                                  (rc_auth_pass rc) (rc_maxred rc) (rc_follow rc) (rc_ua rc) (rc_defmax rc))
       | _ => None
       end
   | _ => None
@@ -247,7 +248,11 @@ Fixpoint chk_hops (uo : usplit) (prev : obs) (script : list hop) (rest : list ob
 Definition check_redir (rc : rcase) (o : obs) : bool :=
   match o with
   | OList [OList hops; _] =>
-      let maxred := match rc_maxred rc with Some z => z | None => 5%Z end in
+      (* the limit, whatever its source: the request, the client's defaults, the built-in 5 *)
+      let maxred := match rc_maxred rc with
+                    | Some z => z
+                    | None => match rc_defmax rc with Some d => d | None => 5%Z end
+                    end in
       let follow := match rc_follow rc with Some b => b | None => true end in
       (* at most max_redirects redirects are followed *)
       (List.length hops <=? S (if follow then Z.to_nat maxred else 0)) &&
